@@ -2803,12 +2803,12 @@ fn plan(seed: u64, thorough: bool) -> Vec<(&'static str, Vec<(&'static str, u64)
         ("fixed", fixed),
         ("thresholds", thr),
         ("thridx", vec![("thridx", 0)]),
-        ("codec", subs("codec", b(700, 6000)).into_iter().map(|s| ("codec", s)).collect()),
+        ("codec", subs("codec", b(700, 5000)).into_iter().map(|s| ("codec", s)).collect()),
         ("store", subs("store", b(320, 2500)).into_iter().map(|s| ("store", s)).collect()),
         ("stack", subs("stack", b(80, 600)).into_iter().map(|s| ("stack", s)).collect()),
-        ("index", subs("index", b(70, 700)).into_iter().map(|s| ("index", s)).collect()),
+        ("index", subs("index", b(70, 520)).into_iter().map(|s| ("index", s)).collect()),
         ("index2", subs("index2", b(12, 120)).into_iter().map(|s| ("index2", s)).collect()),
-        ("filtered", subs("filtered", b(45, 450)).into_iter().map(|s| ("filtered", s)).collect()),
+        ("filtered", subs("filtered", b(45, 380)).into_iter().map(|s| ("filtered", s)).collect()),
         ("v1", subs("v1", b(6, 40)).into_iter().map(|s| ("v1", s)).collect()),
         ("jsondoc", subs("jsondoc", b(60, 600)).into_iter().map(|s| ("jsondoc", s)).collect()),
         ("mixed", subs("mixed", b(40, 300)).into_iter().map(|s| ("mixed", s)).collect()),
